@@ -29,20 +29,21 @@ const (
 func (r Result) String() string { return [...]string{"unknown", "sat", "unsat"}[r] }
 
 type backend struct {
-	name    string
-	cmd     *exec.Cmd
-	in      io.WriteCloser
-	out     *bufio.Reader
-	defined map[int]bool
-	ufs     map[string]bool
-	stack   []*term.Term
-	dead    bool
-	queries int
-	secs    float64
-	sat     int
-	unsat   int
-	unknown int
-	errors  int
+	name       string
+	cmd        *exec.Cmd
+	in         io.WriteCloser
+	out        *bufio.Reader
+	defined    map[int]bool
+	ufs        map[string]bool
+	stack      []*term.Term
+	dead       bool
+	sinceStart int
+	queries    int
+	secs       float64
+	sat        int
+	unsat      int
+	unknown    int
+	errors     int
 }
 
 type Solver struct {
@@ -219,8 +220,31 @@ func (s *Solver) hasDiv(extra *term.Term) bool {
 	return false
 }
 
+// restartEvery bounds the life of a solver process: definitions are global and accumulate, which slows
+// every later query down; a fresh process only re-learns what the current path needs.
+const restartEvery = 1500
+
+func (s *Solver) recycle(name string) {
+	b, ok := s.backends[name]
+	if !ok || b.dead || b.sinceStart < restartEvery {
+		return
+	}
+	b.send("(exit)")
+	b.in.Close()
+	go b.cmd.Wait()
+	nb := *b
+	old := b
+	delete(s.backends, name)
+	fresh := s.start(name)
+	// keep the statistics
+	fresh.queries, fresh.secs, fresh.sat, fresh.unsat, fresh.unknown, fresh.errors = old.queries, old.secs, old.sat, old.unsat, old.unknown, old.errors
+	_ = nb
+}
+
 func (s *Solver) checkOn(name string, extra *term.Term, wantModel bool) (Result, term.Model) {
+	s.recycle(name)
 	b := s.start(name)
+	b.sinceStart++
 	if b.dead {
 		return Unknown, nil
 	}
